@@ -135,7 +135,7 @@ PROPS = {
                                         'the model\'s validProposal is the harness consumer: rejects the blocks listed as bad for this member, checks height and hash'],
     },
     'C05': {
-        'engines': [{'name': 'live', 'quick_args': ['-n', '40'], 'thorough_args': ['-n', '1500']}],
+        'engines': [{'name': 'live', 'quick_args': ['-n', '40'], 'thorough_args': ['-n', '800']}],
         'corr_modules': ['Term'],
         'trusted_base': ['theorems in coq/props/C05.v about coq/theories/World.v and Term.v (proofs in LiveWorld.v, Live.v, Own.v, Accept.v)'],
         'assumptions': COMMON_ASSUME + ['PARTIAL: proved is the good-view half (members of quorum weight that joined a view commit its proposal when their PREPAREs, then COMMITs, are delivered with no election trigger in between) and the acceptance steps leading into it; view synchronisation through the base*2^view timeouts is NOT proved (the model has no clock) and is only searched for stalls by the live engine',
